@@ -149,6 +149,18 @@ def build(backend, tier):
     add("coll:first", per.format("pair(j.eta(), j.pt()).First()"), cmd, cenv)
     add("coll:index", per.format("pair(j.eta(), j.pt())[1]"), cmd, cenv)
     add("coll:where", per.format("pair(j.eta(), j.pt()).Where(lambda v: v > 0).Count()"), cmd, cenv)
+    # ---- a collection of POINTERS to objects (the declared element type carries const and the star)
+    pcls = a.primary_cls
+    if backend == "atlas":
+        pcode = [f"std::vector<const {pcls}*> result;", "for (auto p : x->parts()) result.push_back(p);"]
+    else:
+        pcode = [f"std::vector<const {pcls}*> result;", "for (auto &p : x.parts()) result.push_back(&p);"]
+    pmd = [spec("ptrparts", ["x"], pcode, rtype=f"const {pcls}*", coll=True)]
+    penv = {"ptrparts": lambda o: o.parts()}
+    add("coll-ptr:select", f"ds.Select(lambda e: {S}.Select(lambda j: ptrparts(j).Select(lambda p: p.pt())))", pmd, penv)
+    add("coll-ptr:count", per.format("ptrparts(j).Count()"), pmd, penv)
+    add("coll-ptr:first", per.format("ptrparts(j).First().pt()"), pmd, penv)
+    add("coll-ptr:where-sum", per.format("ptrparts(j).Where(lambda p: p.pt() > 0.5).Select(lambda p: p.nTrk()).Sum()"), pmd, penv)
     # ---- methods
     mmd = [spec("scaled", ["eta"], [f"double result = obj_x{arrow}pt() * eta;"], method_object="obj_x")]
     menv = {}     # method twins live on the reference object: see extra methods below
